@@ -4,6 +4,7 @@ import (
 	"fmt"
 	"math/big"
 	"math/rand"
+	"strings"
 
 	disttypes "github.com/chain4energy/c4e-chain/x/cfedistributor/types"
 	sdk "github.com/cosmos/cosmos-sdk/types"
@@ -124,10 +125,25 @@ func tryDist(r *rand.Rand, o DistOpts) []disttypes.SubDistributor {
 			delete(pending, k)
 		}
 	}
-	mainAliases := []disttypes.Account{acc(disttypes.ModuleAccount, disttypes.DistributorMainAccount), acc(disttypes.BaseAccount, ModuleAddr(disttypes.DistributorMainAccount))}
+	mainAliases := []disttypes.Account{acc(disttypes.ModuleAccount, disttypes.DistributorMainAccount), acc(disttypes.BaseAccount, ModuleAddr(disttypes.DistributorMainAccount)),
+		acc(disttypes.BaseAccount, strings.ToUpper(ModuleAddr(disttypes.DistributorMainAccount)))}
+	// the other valid spelling of a bech32 address (all upper case) names the same account
+	// (one spelling per address and configuration: two spellings of one address would be
+	// two identifiers of the distributor for a single bank account)
+	spelled := map[string]string{}
+	spell := func(a string) string {
+		if v, ok := spelled[a]; ok {
+			return v
+		}
+		spelled[a] = a
+		if o.MainAliases && r.Intn(8) == 0 {
+			spelled[a] = strings.ToUpper(a)
+		}
+		return spelled[a]
+	}
 	randSource := func() disttypes.Account {
 		if o.MainAliases && r.Intn(12) == 0 {
-			return mainAliases[r.Intn(2)]
+			return mainAliases[r.Intn(3)]
 		}
 		switch x := r.Intn(10); {
 		case x < 3:
@@ -138,7 +154,7 @@ func tryDist(r *rand.Rand, o DistOpts) []disttypes.SubDistributor {
 			if o.VestingAddr != "" && r.Intn(6) == 0 {
 				return acc(disttypes.BaseAccount, o.VestingAddr)
 			}
-			return acc(disttypes.BaseAccount, o.BaseAddrs[r.Intn(len(o.BaseAddrs))])
+			return acc(disttypes.BaseAccount, spell(o.BaseAddrs[r.Intn(len(o.BaseAddrs))]))
 		default:
 			// prefer pending internal accounts
 			for _, k := range pendingOrder {
@@ -151,7 +167,7 @@ func tryDist(r *rand.Rand, o DistOpts) []disttypes.SubDistributor {
 	}
 	randDest := func() disttypes.Account {
 		if o.MainAliases && r.Intn(16) == 0 {
-			return mainAliases[r.Intn(2)]
+			return mainAliases[r.Intn(3)]
 		}
 		switch x := r.Intn(12); {
 		case x < 2:
@@ -162,7 +178,7 @@ func tryDist(r *rand.Rand, o DistOpts) []disttypes.SubDistributor {
 			if o.BlockedAddr != "" && r.Intn(8) == 0 {
 				return acc(disttypes.BaseAccount, o.BlockedAddr)
 			}
-			return acc(disttypes.BaseAccount, o.BaseAddrs[r.Intn(len(o.BaseAddrs))])
+			return acc(disttypes.BaseAccount, spell(o.BaseAddrs[r.Intn(len(o.BaseAddrs))]))
 		default:
 			return acc(disttypes.InternalAccount, internalNames[r.Intn(len(internalNames))])
 		}
